@@ -239,7 +239,26 @@ impl FromStr for ServiceAddr {
             "CS" => ServiceAddr::CONTROL,
             "DS" => ServiceAddr::DAEMON,
             "Wildcard" => ServiceAddr::WILDCARD,
-            _ => return Err(ERR),
+            other => {
+                // Unnamed service addresses are displayed as `<SVC:0x1234>`.
+                let hex = other
+                    .strip_prefix("<SVC:0x")
+                    .and_then(|rest| rest.strip_suffix('>'))
+                    .ok_or(ERR)?;
+                if hex.len() != 4 || !hex.bytes().all(|b| matches!(b, b'0'..=b'9' | b'a'..=b'f')) {
+                    return Err(ERR);
+                }
+                let address = ServiceAddr(u16::from_str_radix(hex, 16).map_err(|_| ERR)?);
+                if address.is_multicast()
+                    || matches!(
+                        address,
+                        ServiceAddr::CONTROL | ServiceAddr::DAEMON | ServiceAddr::WILDCARD
+                    )
+                {
+                    return Err(ERR);
+                }
+                address
+            }
         };
 
         match suffix {
